@@ -25,6 +25,13 @@ def c06_family():
                                 body=f"crate::c06::dec_pattern::<{ty}>({k}, {r}, {om}, {rm})",
                                 kind="dec_pattern", codec=ty, k=k, r=r, om=om, rm=rm,
                                 enough=popcount(om) + popcount(rm) >= k, complete=popcount(om) == k))
+    # states reached through a history: adds, then a valid reset (growing / shrinking / same size)
+    for tag, ty, k1, r1, om, rm, k, r in (("high", "HighRateDecoder<N>", 3, 2, 0b001, 0b01, 4, 4), ("high", "HighRateDecoder<N>", 2, 2, 0b11, 0b11, 3, 2),
+                                          ("high", "HighRateDecoder<N>", 4, 4, 0b1111, 0b0001, 2, 1), ("low", "LowRateDecoder<N>", 2, 3, 0b01, 0b101, 4, 4),
+                                          ("low", "LowRateDecoder<N>", 2, 2, 0b10, 0b01, 2, 3), ("low", "LowRateDecoder<N>", 4, 4, 0b0110, 0b1000, 1, 2)):
+        out.append(dict(mod="gen::c06g", name=f"dec_adds_after_reset_{tag}_{k1}_{r1}_o{om}_r{rm}_to_{k}_{r}", unwind=20,
+                        body=f"crate::c06::dec_adds_after_reset::<{ty}>({k1}, {r1}, {om}, {rm}, {k}, {r})",
+                        kind="adds_after_reset", codec=ty, k=k, r=r, a=(k1, r1, om, rm)))
     encs = [("high", "HighRateEncoder<N>", 2, 1), ("low", "LowRateEncoder<N>", 1, 2),
             ("high", "HighRateEncoder<N>", 3, 2), ("low", "LowRateEncoder<N>", 2, 3)]
     for tag, ty, k, r in encs:
@@ -86,7 +93,7 @@ def c02_family():
     for rate, k, r in b_cfg(16):
         small = max(work_sizes(rate, k, r)) <= 8
         ty = f"{ENC_TY[rate]}<SpecEngine>"
-        for p in range(k):
+        for p in (range(k) if small else sorted({0, k - 1})):
             out.append(dict(mod="gen::c02g", name=f"enc_basis_{rate}_{k}_{r}_p{p}", unwind=66,
                             body=f"crate::c02::enc_basis::<{ty}>({k}, {r}, {p}, &crate::gen::gmat::G_{rate.upper()}_{k}_{r})",
                             kind="enc_basis", rate=rate, k=k, r=r, p=p, small=small))
@@ -146,7 +153,7 @@ def c01_family():
         G = f"&crate::gen::gmat::G_{rate.upper()}_{k}_{r}"
         pats = patterns(k, r) if k + r <= 5 else max_loss_patterns(k, r)
         for om, rm in pats:
-            for p in range(k):
+            for p in (range(k) if k + r <= 5 else sorted({0, k - 1})):
                 out.append(dict(mod="gen::c01g", name=f"dec_basis_{rate}_{k}_{r}_o{om}_r{rm}_p{p}", unwind=66, stub=(rate == "low"),
                                 body=f"crate::c01::dec_basis::<{ty}, {k}, {r}>({om}, {rm}, {p}, {G})",
                                 kind="dec_basis", rate=rate, k=k, r=r, om=om, rm=rm, p=p, exhaustive_patterns=(k + r <= 5)))
@@ -246,7 +253,17 @@ def c11_family():
     out = []
     for rate, k, r in (("high", 2, 2), ("low", 2, 2), ("high", 3, 2), ("low", 2, 3)):
         ty = f"{DEC_TY[rate]}<N>"
-        prefixes = [(0, 0), (1, 0), (0, 1), (1 << (k - 1), 1 << (r - 1))]
+        # prefixes: empty, and every shape that puts the decoder just below / at / above the
+        # "enough shards" threshold when the two further shards arrive (k-2, k-1, k shards given)
+        prefixes = {(0, 0), (1, 0), (0, 1), (1 << (k - 1), 1 << (r - 1))}
+        for po in range(1 << k):
+            for pr in range(1 << r):
+                n = popcount(po) + popcount(pr)
+                if n in (k - 1, k) and popcount(po) < k and (po, pr) in {(po & -po | (po & (po - 1)), pr)}:
+                    # keep it small: lowest-index shapes only
+                    if po in (0, 1, (1 << (k - 1))) and pr in (0, 1, 3, (1 << (r - 1))):
+                        prefixes.add((po, pr))
+        prefixes = sorted(prefixes)
         for kinds in (0, 1, 2):
             for po, pr in prefixes:
                 free_o = k - popcount(po)
